@@ -243,6 +243,10 @@ def parse_kind(text, classes=(), enums=()):
         return KList(sub[0])
     if head == 'Dict':
         return KDict(sub[0], sub[1])
+    if head == 'DefaultDict':
+        k = KDict(sub[0], sub[1])
+        k.default_cls = sub[1].cls       # collections.defaultdict(Cls): a missing key constructs Cls()
+        return k
     if head == 'Set':
         return KSet(sub[0])
     if head == 'Counter':
